@@ -47,7 +47,8 @@ def draw_cfg(st):
     if mode == "race":
         return {"mode": "race", "world": "threads", "n_racers": 2 + st.choose(3, "racers"),
                 "p_switch": [0.2, 0.05, 0.5][st.choose(3, "p_switch")],
-                "outcome": st.choose(2, "outcome"), "in_action": st.choose(5, "in_action") != 4,
+                "outcome": st.choose(3, "outcome"), "in_action": st.choose(5, "in_action") != 4,
+                "late_call": bool(st.choose(2, "late_call")),
                 "stagger": st.choose(3, "stagger")}
     cfg = {
         "mode": "nodes", "world": "threads", "late_remote": True, "double_preserve": True,
@@ -180,13 +181,16 @@ def run_race(seed, dec, cfg):
     results = {}
     marker = object()
     boom = AppError("from the preserved function")
+    tboom = TypeError("unsupported operand inside f")
 
     def f(x, y=0):
         executions.append((x, y, e.current_action()))
         e.log_message(message_type="inside", who=x)
         s.yield_point("in-f")
-        if cfg["outcome"]:
+        if cfg["outcome"] == 1:
             raise boom
+        if cfg["outcome"] == 2:
+            raise tboom         # an ordinary bug inside f that happens to be a TypeError
         return marker
 
     state = {}
@@ -201,7 +205,7 @@ def run_race(seed, dec, cfg):
                 results[i] = ("ret", r, inv, s.stamp())
             except TooManyCalls as ex:
                 results[i] = ("too_many", ex, inv, s.stamp())
-            except AppError as ex:
+            except (AppError, TypeError) as ex:
                 results[i] = ("raised", ex, inv, s.stamp())
             except SimAbort:
                 raise
@@ -219,6 +223,10 @@ def run_race(seed, dec, cfg):
                 for t in acts:
                     s.yield_point("join")
                     s.join(t)
+                if cfg["late_call"]:
+                    # one more invocation after every racer has finished (and the first one has failed
+                    # or succeeded): still TooManyCalls
+                    racer(cfg["n_racers"])()
         else:
             state["g"] = e.preserve_context(f)
             if state["g"] is not f:
@@ -243,7 +251,7 @@ def run_race(seed, dec, cfg):
             raise viol
         if s.deadlock or s.abort:
             raise Violation("no_termination", "run aborted: %s %s" % (s.abort, s.deadlock))
-        n = cfg["n_racers"]
+        n = cfg["n_racers"] + (1 if (cfg["late_call"] and cfg["in_action"]) else 0)
         if len(results) != n:
             raise Violation("no_termination", "only %d of %d racers finished" % (len(results), n))
         if not cfg["in_action"]:
@@ -259,13 +267,16 @@ def run_race(seed, dec, cfg):
                 raise Violation("arguments", "arguments were not passed through: %r %r" % (x, y))
             kinds = sorted(r[0] for r in results.values())
             want = sorted(["raised" if cfg["outcome"] else "ret"] + ["too_many"] * (n - 1))
+            bad = [v[1] for v in results.values() if v[0] == "raised" and v[1] is not boom and v[1] is not tboom]
+            if bad:
+                raise Violation("result", "a different exception came out: %r" % (bad[0],))
             if kinds != want:
                 raise Violation("call_outcomes", "racers saw %s, expected %s (%r)" % (
                     kinds, want, {k: (v[0], repr(v[1])[:80]) for k, v in results.items()}))
             win = results[x]
             if win[0] == "ret" and win[1] is not marker:
                 raise Violation("result", "return value was not passed through")
-            if win[0] == "raised" and win[1] is not boom:
+            if win[0] == "raised" and win[1] is not (tboom if cfg["outcome"] == 2 else boom):
                 raise Violation("result", "exception object was not passed through")
             if win[0] == "too_many":
                 raise Violation("call_outcomes", "the call that executed f also raised TooManyCalls")
